@@ -991,7 +991,7 @@ func (st *State) touchedKeys() []string {
 	}
 	for k := range seen {
 		s, ok := st.e.keySort[k]
-		if !ok || strings.HasPrefix(k, "UB|") {
+		if !ok || strings.HasPrefix(k, "UB|") || k == "S|ctx_done_seen" {
 			continue // UB|: mirrors of engine-side update builders, not program state
 		}
 		cur := st.heapGet(st.heap, k, s, st.e.keyIsRef[k])
